@@ -732,4 +732,3 @@ func recLazy(c *core.Ctx, r *core.Reporter) {
 		"called only from completePlannedAbstractValue (with the runtime type it just resolved, see C20/FLOW-parent)",
 		fmt.Sprintf("abstractAlternative is called from %v: sub-plans of abstract fields are built for types no request resolved", callers))
 }
-
